@@ -131,6 +131,23 @@ def make_pub(f):
         f.apply(edits, "R9")
 
 
+SEEN_ASSUMED = {}
+
+
+def assumed_fingerprint(file, name):
+    """fingerprint (whitespace- and comment-insensitive) of a repository function that a unit describes by a hand-written contract"""
+    src = load_source(file)
+    impl = None
+    if "::" in name:
+        impl, name = name.split("::", 1)
+    try:
+        s, bo, e = src.find_fn(name, impl, None)
+    except rscan.ScanError as ex:
+        raise UnitError("assumed %s %s: %s" % (file, name, ex))
+    toks = rscan.tokenize(src.span_text(s, e))
+    return hashlib.sha256(" ".join(t.text for t in toks).encode()).hexdigest()[:16]
+
+
 def extract(region, unit_cfg):
     src = load_source(region.file)
     lift = "#" in region.name
@@ -250,6 +267,13 @@ def build_unit(unit, scratch):
             add("// contract proved in unit `%s` on the real text of %s; ASSUMED here" % (seg[1], seg[2]), ("vocab", unit))
             add(splice.stub_of(hit[0]), ("stub", "%s/%s" % (seg[1], seg[2])))
             b.stubs.append("%s/%s" % (seg[1], seg[2]))
+        elif seg[0] == "assumed":
+            fp = assumed_fingerprint(seg[1], seg[2])
+            SEEN_ASSUMED[(seg[1], seg[2])] = fp
+            if seg[3] != "?" and seg[3] != fp:
+                raise UnitError("assumed contract of %s (%s): the function's text has changed (fingerprint %s, recorded %s); the hand-written contract may no longer describe it" % (seg[2], seg[1], fp, seg[3]))
+            add("// ASSUMED contract of the repository function %s (%s), text fingerprint %s" % (seg[2], seg[1], fp), ("vocab", unit))
+            b.assumed_repo_fns = getattr(b, "assumed_repo_fns", []) + ["%s::%s" % (seg[1], seg[2])]
         elif seg[0] == "include":
             p = os.path.join(VERIF, seg[1])
             try:
